@@ -53,6 +53,8 @@ class Run:
 
         class HSched(ActionScheduler):
             def default_action(self, obj, time, new_state):
+                if instrument.PROBING:
+                    return            # (a what-if copy of the model at work)
                 run.calls.append(('default', obj, (obj, time, new_state)))
                 run.state_seen_in_action(self.current_state, new_state, time)
 
@@ -100,6 +102,9 @@ class Run:
         self.midrun = 0
         self.end_reached = False
         self.storm = [None, 0]
+        self.frozen_at = None
+        self.was_frozen = False
+        self.exp_log = []         # (time, state) of every judged round, as expected
 
     def make_scheduler(self):
         case = self.case
@@ -115,7 +120,23 @@ class Run:
             self.failed = True
             self.sh.violation(name, msg, self.case, engine='sched', witness={'now': self.env.now})
 
+    def __deepcopy__(self, memo):
+        return self               # the harness is not part of the model
+
+    def what_if(self, length):
+        """The user tries something out on a deep copy of the whole System, continued on its own for a while next
+        to the model (the instrumentation is silent meanwhile): the model proper must not notice."""
+        import copy
+        if self.sched is None or self.sched.env is None:
+            return
+        with instrument.probing():
+            twin = copy.deepcopy(self.system)
+            twin.env.run(length)
+        self.sh.count('what_if_copies_continued_next_to_the_model')
+
     def override(self, sched, obj, time, state):
+        if instrument.PROBING:
+            return
         self.calls.append(('override', obj, (sched, obj, time, state)))
         self.state_seen_in_action(sched.current_state, state, time)
 
@@ -130,6 +151,24 @@ class Run:
         if self.sched is None:
             return
         kind, name, ovr = op
+        if kind == 'what_if':
+            self.what_if(ovr)
+            return
+        if kind == 'freeze':
+            # the user freezes the scheduler's pending transition (Environment.pause_matching_events on its id) ...
+            if self.frozen_at is None and self.sched.env is not None:
+                self.env.pause_matching_events(asset_id=self.sched.id)
+                self.frozen_at = self.env.now
+                self.was_frozen = True
+            return
+        if kind == 'thaw':
+            # ... and releases it later: the timetable resumes where it stood, shifted by the length of the pause
+            if self.frozen_at is not None:
+                self.env.unpause_matching_events(asset_id=self.sched.id)
+                self.t_next = max(self.env.now, self.t_next + (self.env.now - self.frozen_at))
+                self.frozen_at = None
+                self.sh.count('timetables_resumed_after_a_pause')
+            return
         if kind == 'reinit':
             # a second initialisation is refused by the library (AssertionError): it must change nothing
             if self.sched.env is None:
@@ -197,6 +236,7 @@ class Run:
             self.fail('current_state', f'{where}: current_state {self.sched.current_state!r}, expected {state!r}')
             return
         self.state = state
+        self.exp_log.append((self.t_next, state))
         self.calls = []
         self.k += 1
         self.rounds += 1
@@ -239,7 +279,7 @@ class Run:
         if self.failed or self.sched is None:
             return
         n = len(self.case['timetable'])
-        if (self.cyclical or self.k < n) and self.t_next <= env.now and self.k > 0:
+        if (self.cyclical or self.k < n) and self.t_next <= env.now and self.k > 0 and self.frozen_at is None:
             self.fail('transition_missed', f'transition {self.k} was due at {self.t_next!r}; clock leaves {env.now!r}')
 
     def run_begin(self, env, t0, d):
@@ -256,12 +296,16 @@ class Run:
                     self.do_reg(op, False)
             for t, prio, op in case['script']:
                 def act(op=op):
+                    if instrument.PROBING:
+                        return        # (the same script event in a what-if copy: not the model's business)
                     self.do_reg(op, True)
                 act.__name__ = 'script_' + op[0]
                 self.env.schedule_event(t, -2, act, prio)
             try:
                 for n, d in enumerate(case['horizon']):
                     self.system.simulate(d, print_summary=False)
+                    if n == 0 and len(case['horizon']) > 1 and case.get('what_if_between'):
+                        self.what_if(case['what_if_between'])
                     if n == 0 and case.get('late'):
                         # the scheduler is created between two simulate() calls: it starts at once
                         # (start-up round at this instant, nobody registered yet), its timetable counts from now
@@ -295,6 +339,12 @@ class Run:
         want = []
         t = getattr(self, 't_start', 0.0)
         k = 0
+        if self.was_frozen:
+            # the timetable was shifted by a pause: the rounds judged one by one, then the fold continues
+            want = list(self.exp_log)
+            t, k = self.t_next, self.k
+            if self.frozen_at is not None:
+                t = end + 1
         while t <= end and (self.cyclical or k < n):
             dur, state = tt[k % n]
             want.append((t, state))
@@ -370,6 +420,26 @@ def gen_case(rng, tie):
         case['late'] = True
     elif rng.random() < 0.25:
         case['spawned'] = rng.choice([1, 2, 3, 4])
+    if style != 'decimal' and not case.get('bigint') and rng.random() < 0.25:
+        # the pending transition is frozen for a while from outside and released (on the 1/8 grid: exact)
+        h = sum(case['horizon'])
+        t1 = int(rng.random() * h * 0.8 * 8) / 8.0
+        if rng.random() < 0.4:
+            t1 = rng.choice([x for x in ts if x <= h] or [t1])
+        t2 = min(h, t1 + rng.choice([0.125, 0.5, 1.25, 3, 0]))
+        pr = rng.choice([2, 10, 11, 11.5, 10.5, 12])
+        case['script'] = sorted(case['script'] + [[t1, pr, ['freeze', 'o1', False]], [t2, pr, ['thaw', 'o1', False]]],
+                                key=lambda e: e[0])
+    if not case.get('bigint') and rng.random() < 0.2:
+        # a deep copy of the System is continued on its own next to the model (from an event, or between two runs)
+        h = sum(case['horizon'])
+        ln = rng.choice([0.5, 2, 5, 2 * total + 0.25])
+        if len(case['horizon']) > 1 and rng.random() < 0.5:
+            case['what_if_between'] = ln
+        else:
+            t1 = int(rng.random() * h * 0.8 * 8) / 8.0
+            case['script'] = sorted(case['script'] + [[t1, rng.choice([2, 10.5, 12]), ['what_if', 'o1', ln]]],
+                                    key=lambda e: e[0])
     return case
 
 
